@@ -20,14 +20,15 @@ def sh(cmd, **kw):
 
 
 def main():
-    prop, n = sys.argv[1], sys.argv[2]
+    tag, n = sys.argv[1], sys.argv[2]      # e.g. C18 or C18b (second round)
+    prop = tag[:3]
     checks = [prop]
     if '--checks' in sys.argv:
         checks = sys.argv[sys.argv.index('--checks') + 1].split(',')
-    src = '/tmp/seed-%s/%s' % (prop, n)
+    src = '/tmp/seed-%s/%s' % (tag, n)
     if '--src' in sys.argv:
         src = sys.argv[sys.argv.index('--src') + 1]
-    dst = os.path.join(VERIF, 'seeded', '%s-%s' % (prop, n))
+    dst = os.path.join(VERIF, 'seeded', '%s-%s' % (tag, n))
     if not os.path.isdir(WT):
         r = sh('git -C /repo worktree add -q --detach %s HEAD && cp '
                '/repo/petl/version.py %s/petl/version.py' % (WT, WT))
